@@ -7,6 +7,15 @@ def do_read(o):
     return y
 
 
+def do_class_read(o):
+    y = type(o).x
+    return y
+
+
+def do_hasattr(o):
+    return hasattr(type(o), 'x')
+
+
 def do_assign(o, v):
     o.x = v
 
@@ -76,6 +85,39 @@ def read_y(o):
 
 def aug_x_by_y(o):
     o.x += read_y(o)
+
+
+# statements that involve two instances of the class
+def two_aug_from(b, a):
+    b.x += a.x
+
+
+def two_assign_from(b, a):
+    b.x = a.x + 1
+
+
+def two_swap(a, b):
+    a.x, b.x = b.x, a.x
+
+
+def two_accumulate_then_assign(a, b, v):
+    total = 0
+    total += a.x
+    b.x = v
+    return total
+
+
+def two_compare_then_assign(a, b, v):
+    if a.x <= 10 ** 9:
+        b.x = v
+
+
+def two_sub_from(b, a):
+    b.x -= a.x
+
+
+def two_read_both(a, b):
+    return a.x + b.x
 
 
 import operator as _op
